@@ -23,8 +23,8 @@ Definition go_zero_time : Z := go_zero_time_secs * second.
 Definition date_header (h : headers) : Z :=
   match raw_time (hget (bs "Date") h) with Some t => t | None => go_zero_time end.
 
-(* ---- float64 emulation for  time.Duration(float64(delta) * 0.1).Round(time.Second) ---- *)
-(* nearest-even rounding of a positive integer to 53 significant bits; result = q * 2^shift *)
+(* nearest-even rounding of a positive integer to 53 significant bits; result = q * 2^shift
+   (used by the emulation of Duration.Seconds() below) *)
 Definition round53 (x : Z) : Z * Z :=
   let bits := Z.log2 x + 1 in
   if bits <=? 53 then (x, 0)
@@ -36,27 +36,15 @@ Definition round53 (x : Z) : Z * Z :=
     let half := p / 2 in
     if (half <? r) || ((r =? half) && Z.odd q) then (q + 1, shift) else (q, shift).
 
-(* the float64 nearest to 0.1 is 3602879701896397 / 2^55 *)
-Definition tenth_mant : Z := 3602879701896397.
-
-(* int64(float64(delta) * 0.1) for delta > 0 *)
-Definition float_tenth (delta : Z) : Z :=
-  let '(q1, s1) := round53 delta in
-  let '(q2, s2) := round53 (q1 * tenth_mant) in
-  let e := s1 + s2 - 55 in
-  if 0 <=? e then q2 * 2 ^ e else q2 / 2 ^ (- e).
-
-(* Duration.Round(time.Second) for d >= 0: halves round away from zero *)
-Definition round_second (d : Z) : Z :=
-  let r := d mod second in
-  if r + r <? second then d - r else d + second - r.
-
+(* heuristicFreshness: date.Sub(lastMod) / 10 *)
 Definition heuristic_freshness (h : headers) (date : Z) : Z :=
   match raw_time (hget (bs "Last-Modified") h) with
-  | Some lm =>
-      if lm <? date then round_second (float_tenth (time_sub date lm)) else 0
+  | Some lm => if lm <? date then time_sub date lm / 10 else 0
   | None => 0
   end.
+
+(* saturatingAdd on non-negative durations *)
+Definition go_sat_add (a b : Z) : Z := if max64 - b <? a then max64 else a + b.
 
 (* ---- calculateCurrentAge ---- *)
 (* [now1] is the clock reading of clock.Since(responseTime), [now2] the one stored as Timestamp *)
@@ -64,10 +52,11 @@ Definition current_age (h : headers) (date request_time response_time now1 : Z) 
   let age_val := match hget (bs "Age") h with [] => 0 | s => atoi_drop_err s end in
   let apparent := Z.max (time_sub response_time date) 0 in
   let delay := Z.max (time_sub response_time request_time) 0 in
-  let corrected_age := dur_add (wrap64 (wrap64 age_val * second)) delay in
+  let age_value := if age_val <=? max_delta_seconds then Z.max age_val 0 * second else max64 in
+  let corrected_age := go_sat_add age_value delay in
   let corrected_initial := Z.max apparent corrected_age in
   let resident := Z.max (time_sub now1 response_time) 0 in
-  dur_add corrected_initial resident.
+  go_sat_add corrected_initial resident.
 
 Record stored_entry := {
   e_status : Z;
@@ -107,7 +96,7 @@ Definition calculate_freshness (e : stored_entry) (req_cc res_cc : directives) (
                    | None => 0
                    end in
       let life1 :=
-        if life0 =? 0 then
+        if negb (resp_max_age_present res_cc) then
           match expires_header (e_hdr e) with
           | (_, Some ex) =>
               if date <? ex then time_sub ex date else 0
@@ -148,16 +137,35 @@ Definition calculate_freshness (e : stored_entry) (req_cc res_cc : directives) (
 (* SetAgeHeader: Age := itoa(int(seconds of max(age + since(ts), 0))) ; Duration.Seconds() is a float,
    the conversion int(float) truncates: for non-negative durations this is d / 1e9 up to float rounding,
    which is exact for d < 2^53 ns and at most one off in the last of ten or more digits beyond. *)
+(* int(d.Seconds()) for d >= 0, where Seconds() = float64(d/1e9) + float64(d%1e9)/1e9 in IEEE doubles *)
+Definition seconds_trunc (d : Z) : Z :=
+  let sec := d / second in
+  let nsec := d mod second in
+  if nsec =? 0 then sec
+  else
+    (* f = RN(nsec / 1e9) = q * 2^-k with 2^52 <= q <= 2^53 *)
+    let k0 := 53 + Z.log2 second - Z.log2 nsec in
+    let k := if (nsec * 2 ^ k0) / second <? 2 ^ 52 then k0 + 1
+             else if 2 ^ 53 <=? (nsec * 2 ^ k0) / second then k0 - 1 else k0 in
+    let n := nsec * 2 ^ k in
+    let q0 := n / second in
+    let r := n mod second in
+    let q := if (second <? 2 * r) || ((2 * r =? second) && Z.odd q0) then q0 + 1 else q0 in
+    (* sec + f exactly, then rounded to 53 bits *)
+    let '(m, shift) := round53 (sec * 2 ^ k + q) in
+    let e := shift - k in
+    if 0 <=? e then m * 2 ^ e else m / 2 ^ (- e).
+
 Definition age_header_value (f : freshness) (now : Z) : bytes :=
-  let adj := Z.max (dur_add (f_age f) (time_sub now (f_age_ts f))) 0 in
-  dec_of_Z (adj / second).
+  let adj := go_sat_add (f_age f) (Z.max (time_sub now (f_age_ts f)) 0) in
+  dec_of_Z (seconds_trunc adj).
 
 (* staleIfErrorPolicy.CanStaleOnError with a single directive source *)
 Definition can_stale_on_error (f : freshness) (sie : option Z) (now : Z) : bool :=
   match sie with
   | Some dur =>
-      let age := dur_add (f_age f) (time_sub now (f_age_ts f)) in
-      age <=? dur_add (f_life f) dur
+      let age := go_sat_add (f_age f) (Z.max (time_sub now (f_age_ts f)) 0) in
+      age <=? go_sat_add (f_life f) dur
   | None => false
   end.
 
